@@ -75,6 +75,13 @@ const EXTREME_TEMPLATES: &[&str] = &[
     "A m\nfn f() = ans\n\"str\"\nf() + 1 m",
     "A\nfn g(x) = x * _\ntrue\ng(B)",
     "B s\nlet k = ans\nfn h() = k + ans\n[1]\nh()",
+    "(2 m)^(0^A)",
+    "(2 m)^(A^-1)",
+    "(3 s)^((B - B)^A)",
+    "(2 m)^(A^(B))",
+    "fn f(x: Length) = x^(0^A)\nf(2 m)",
+    "unit foo = meter^((1 - 1)^(A))",
+    "dimension Q = Length^(A^B)",
     "fn now() -> DateTime\nnow() - now()",
     "fn datetime(input: String) -> DateTime\ndatetime(\"2000-01-01 00:00:00 UTC\") - datetime(\"2001-01-01 00:00:00 UTC\")",
 ];
